@@ -47,6 +47,8 @@ type job struct {
 	Count   uint64   `json:"count"`
 	Tape    []uint32 `json:"tape,omitempty"`
 	Class   string   `json:"class,omitempty"`
+	MsgHas  string   `json:"msg_has,omitempty"`
+	MaxRuns int      `json:"max_runs,omitempty"`
 	Out     string   `json:"out"`
 	WallS   float64  `json:"wall_s"`
 	MaxFail int      `json:"max_fail"`
@@ -455,7 +457,11 @@ func check(bin, dir, prop, tier string, base uint64, workers int, scale float64,
 					continue
 				}
 			}
-			rf := reportFailure(bin, dir, prop, tier, base, d, f)
+			msgHas := ""
+			if pre != nil {
+				msgHas = pre.MsgContains // the minimised witness must stay inside the same finding
+			}
+			rf := reportFailure(bin, dir, prop, tier, base, d, f, msgHas)
 			if rf == nil {
 				continue
 			}
@@ -615,12 +621,13 @@ func runFamily(bin, dir, prop, tier string, base uint64, workers int, scale floa
 }
 
 // reportFailure shrinks, writes the replay file and confirms it in a fresh process.
-func reportFailure(bin, dir, prop, tier string, base uint64, d famDesc, f failure) *replayFile {
-	shrinkS := 20.0
+func reportFailure(bin, dir, prop, tier string, base uint64, d famDesc, f failure, msgHas string) *replayFile {
+	// the shrink budget is a number of runs (repeatable), with a generous wall-clock cap
+	shrinkRuns, shrinkS := 250, 150.0
 	if tier == "thorough" {
-		shrinkS = 90
+		shrinkRuns, shrinkS = 3000, 400
 	}
-	shr, out, err := runWorker(bin, dir, job{Prop: prop, Family: d.Name, Mode: "shrink", Tier: tier, Tape: f.Tape, Class: f.Class, WallS: shrinkS}, 1, 4*time.Minute)
+	shr, out, err := runWorker(bin, dir, job{Prop: prop, Family: d.Name, Mode: "shrink", Tier: tier, Tape: f.Tape, Class: f.Class, MsgHas: msgHas, MaxRuns: shrinkRuns, WallS: shrinkS}, 1, 8*time.Minute)
 	tape := f.Tape
 	shrunk := "not shrunk"
 	if err != nil {
